@@ -118,10 +118,28 @@ def pipeline(ctx, want):
     trace = os.path.join(ctx.work, "tracker_obs.ndjson")
     ctx.go_test("c05_tracker", run="TestDriver", infile=inp, env={"VERIF_TRACE": trace}, timeout=3000,
                 race=not ctx.quick())
-    return judge(ctx, trace, want)
+    return judge(ctx, trace, want, {sc["id"]: sc for sc in scripts})
 
 
-def judge(ctx, trace, want):
+def replay_script(ctx, path, want):
+    """re-run the script stored in a replay file (R + V on that script only, 5 times: timing is part of the input)"""
+    j = json.load(open(path))
+    sc = (j.get("case") or {}).get("script_def")
+    if not sc:
+        raise vcheck.Infra("replay file carries no script")
+    inp = os.path.join(ctx.work, "tracker_scripts.ndjson")
+    with open(inp, "w") as f:
+        for k in range(5):
+            s2 = dict(sc)
+            s2["id"] = "%s-r%d" % (sc["id"], k)
+            f.write(json.dumps(s2) + "\n")
+    trace = os.path.join(ctx.work, "tracker_obs.ndjson")
+    ctx.go_test("c05_tracker", run="TestDriver", infile=inp, env={"VERIF_TRACE": trace}, timeout=1200)
+    ctx.samples.append({"replayed_script": sc["id"]})
+    return judge(ctx, trace, want, {})
+
+
+def judge(ctx, trace, want, scripts=None):
     verdict = os.path.join(ctx.work, "tracker_verdict.ndjson")
     r = tla.run_tlc(ctx.specdir(), "TrackerObs.tla", "TrackerObs.cfg", workers=1, timeout=3000, heap="8g",
                     env_extra={"TRACE_FILE": trace, "VERDICT_FILE": verdict})
@@ -140,13 +158,13 @@ def judge(ctx, trace, want):
         for i in v[cls]:
             rec = recs[i - 1]
             bad.add(i)
-            ctx.violation(key_of(ctx.prop, cls, rec), describe(cls, rec), slim(rec))
+            ctx.violation(key_of(ctx.prop, cls, rec), describe(cls, rec), slim(rec, scripts))
     if "recover" in want:
         for i in v["stuck"]:
             rec = recs[i - 1]
             ctx.violation("C05:recover:direct-over-recursive",
                           "after a healthy recover round the daemon still holds the CID recursively while the "
-                          "pinset records a direct pin (pin direct fails: already pinned recursively)", slim(rec))
+                          "pinset records a direct pin (pin direct fails: already pinned recursively)", slim(rec, scripts))
     drift_only = [i for i in v["drift"] if i not in bad]
     if drift_only:
         rec = recs[drift_only[0] - 1]
@@ -198,7 +216,12 @@ def describe(cls, rec):
     }[cls] + " (script %s step %d)" % (rec["script"], rec["i"])
 
 
-def slim(rec):
+def slim(rec, scripts=None):
     r = dict(rec)
     r.pop("filters", None)
+    sid = r.get("script", "")
+    if scripts:
+        base = sid.split("-r")[0] if sid not in scripts else sid
+        if base in scripts:
+            r["script_def"] = scripts[base]
     return r
